@@ -265,6 +265,7 @@ def judge_abort_rules(sc, lines_in, impl_out):
 
 class C04(PropBase):
     id = 'C04'
+    rx_only_gaps = 0.1
     lean_modules = ['Isotp.Props.C04']
     theorems = []
     rule = ('one sender against adversarial Flow Control histories: {CTS(BS 0,1,2,3,255; STmin 0,1ms,5ms,127ms,100us), Wait, Overflow} delivered when '
